@@ -532,6 +532,16 @@ class ModelFS:
                 had = "open" in vars(m)
                 self._saved.append((m, "open", vars(m).get("open"), had))
                 setattr(m, "open", self.open)
+        # names a nauyaca module imported directly (``from tempfile import mkstemp``, ``from os import replace``)
+        direct = {id(tempfile.mkstemp): self.mkstemp, id(io.open): self.open}
+        for k, v in osx.__dict__["_table"].items():
+            if hasattr(os, k):
+                direct[id(getattr(os, k))] = v
+        for m in _NAUYACA_MODS:
+            for name, val in list(vars(m).items()):
+                if not name.startswith("__") and id(val) in direct and callable(val):
+                    self._saved.append((m, name, val, True))
+                    setattr(m, name, direct[id(val)])
         self._saved.append((tempfile, "mkstemp", tempfile.mkstemp, True))
         tempfile.mkstemp = self.mkstemp
 
